@@ -72,9 +72,6 @@ impl Scenario for JoypadEvents {
     fn name(&self) -> &'static str {
         "joypad_events"
     }
-    fn isolated(&self) -> bool {
-        false
-    }
     fn quick_runs(&self, _f: &str) -> u64 {
         24000
     }
